@@ -486,7 +486,10 @@ impl Scheduler {
                     mem::drop(ready);
 
                     if self.core.claim_pending_queue(queue) {
-                        // We're now running the queue: try to run jobs on it until it's ready
+                        // We're now running the queue (if one of its jobs panics here, the queue is panicked, as in the other ways of running it)
+                        let _active = ActiveQueue { queue: &*queue };
+
+                        // Try to run jobs on it until it's ready
                         while !ready_mutex.lock().unwrap().finished {
                             match JobQueue::run_one_job_now(queue) {
                                 JobStatus::Finished | JobStatus::NoJobsWaiting => { },
